@@ -58,14 +58,18 @@ PROPS = {
             'skip_one_node_len / one_entry_map_spans equal the node-length spec and stay in bounds',
             'KeyNode::fingerprint / take_fingerprint: a scalar key is fingerprinted by its text and tag (style, anchor, location blind); the unreachable!() needs and gets the representation invariant',
             'ReplayEvents implements the Events cursor contract (events replayed in order, peek never moves)',
+            'MA::next_key_seed (real body, K monomorphised to an opaque seed): no reachable panic, callee preconditions, map-access invariant preserved; in-body obligations: a DuplicateMappingKey error is located at the repeated key (both the buffered and the live path), FirstWins discards exactly the value node of the repeated key',
+            'capture_node: the fingerprint of a key equals the structural fingerprint of its events (kind, scalar text and tag; blind to style, anchors, locations)',
         ],
-        not_covered=['the policy match in MA::next_key_seed itself (Error / FirstWins / LastWins dispatch) and serde-side overwriting', 'HashSet<KeyFingerprint> lookup (derived Hash/Eq assumed lawful)'],
+        not_covered=['a history-level statement of the three policies (a ghost trace of delivered keys); termination of MA::next_key_seed; serde-side overwriting', 'HashSet<KeyFingerprint> lookup (derived Hash/Eq assumed lawful)'],
         assumptions=['event buffers and streams shorter than 2^31 events (i32 depth counters; stated as preconditions)'],
     ),
     'C03': dict(
         covered=['is_merge_key: exactly an untagged plain scalar `<<` standing alone (quoted or tagged `<<` is an ordinary key)',
-                 'KeyNode accessors used by merge expansion'],
-        not_covered=['merge expansion order (pending_entries_*, collect_entries_from_map) and the flush in MA::next_key_seed - planned'],
+                 'KeyNode accessors used by merge expansion',
+                 'collect_entries_from_map: own fields first, then the collected merge sources flattened from the last to the first',
+                 'MA::enqueue_next_merge_batch: the newest non-empty merge batch is flushed next, in front of the queue'],
+        not_covered=['node-level correspondence of pending_entries_from_events / pending_entries_from_live_events with the merge_expand spec (their contracts are assumed); the history-level "own keys win" statement'],
         assumptions=[],
     ),
     'C16': dict(
